@@ -438,3 +438,94 @@ pub fn replay_flow(case: &Value, rep: &mut Report) {
         }
     }
 }
+
+// ------------------------------------------------------------------------------------------------
+// Group "tying": feedback blocks keep their repeated layers weight-tied (C10)
+// ------------------------------------------------------------------------------------------------
+
+fn copies_equal(net: &Network, period: usize) -> Option<String> {
+    for layer in net.layers.iter() {
+        let inner = verif::inner_layers(layer);
+        for (j, l) in inner.iter().enumerate() {
+            let base = &inner[j % period];
+            let (a, b) = (verif::layer_params(base), verif::layer_params(l));
+            let bits = |p: &verif::Params| -> Vec<u32> {
+                let mut v = Vec::new();
+                if let Some(w) = &p.weights { v.extend(w.iter().flatten().map(|x| x.to_bits())); }
+                if let Some(w) = &p.bias { v.extend(w.iter().map(|x| x.to_bits())); }
+                if let Some(w) = &p.kernels { v.extend(w.iter().flatten().flatten().flatten().map(|x| x.to_bits())); }
+                v
+            };
+            if bits(&a) != bits(&b) {
+                return Some(format!("unrolled layer {} differs from layer {} (same position in repetition 0)", j, j % period));
+            }
+            if a.weights.iter().flatten().flatten().any(|x| !x.is_finite()) || a.kernels.iter().flatten().flatten().flatten().flatten().any(|x| !x.is_finite()) {
+                return Some(format!("non-finite parameter in unrolled layer {}", j));
+            }
+        }
+    }
+    None
+}
+
+pub fn replay_tying(case: &Value, rep: &mut Report, rng: &mut Rng) {
+    let block = case["block"].as_array().unwrap();
+    let loops = usize_of(case, "loops");
+    let acc = str_of(case, "acc");
+    let opt = str_of(case, "optimizer");
+    let (batch, steps) = (usize_of(case, "batch"), usize_of(case, "steps"));
+    let id = format!("tying:{}:loops{}:{}:{}:b{}s{}", case["block"], loops, acc, opt, batch, steps);
+    let spatial = block[0][0] != "dense";
+    let inner: Vec<Value> = block
+        .iter()
+        .map(|l| match l[0].as_str().unwrap() {
+            "dense" => json!({"kind": "dense", "out": l[1], "act": "tanh", "bias": l[2]}),
+            k => json!({"kind": k, "filters": l[1], "kernel": [3, 3], "stride": [1, 1], "padding": [1, 1], "act": "tanh"}),
+        })
+        .collect();
+    let width = if spatial { 16 } else { block[0][1].as_u64().unwrap() as usize };
+    let optimizer = match opt {
+        "sgd" => json!({"kind": "sgd", "lr": 0.0625}),
+        "sgdm" => json!({"kind": "sgdm", "lr": 0.0625, "momentum": 0.5}),
+        "adam" => json!({"kind": "adam", "lr": 0.01}),
+        "adamw" => json!({"kind": "adamw", "lr": 0.01, "decay": 0.01}),
+        _ => json!({"kind": "rmsprop", "lr": 0.01, "alpha": 0.9, "momentum": 0.5, "centered": true}),
+    };
+    let arch = json!({"input": if spatial { json!([1, 4, 4]) } else { json!([width]) }, "out": 2, "ints": false,
+        "layers": [{"kind": "feedback", "layers": inner, "loops": loops, "acc": acc}, {"kind": "dense", "out": 2, "act": "linear", "bias": false}],
+        "objective": {"kind": "mse"}, "optimizer": optimizer});
+    rep.checks += 3;
+    rep.nontrivial(id.clone());
+    let mut net = match guarded(|| nets::build(&arch)) {
+        Ok(n) => n,
+        Err(e) => {
+            rep.mismatch("C10", "block_rejected", &id, json!({"panic": e}), case);
+            return;
+        }
+    };
+    let period = block.len();
+    // created as identical clones
+    if let Some(d) = copies_equal(&net, period) {
+        rep.mismatch("C10", "copies_differ_at_creation", &id, json!({"diff": d}), case);
+        return;
+    }
+    // the reported parameter count counts each shared parameter once
+    let want = usize_of(case, "count") + width * 2;
+    match parameters_line(&net) {
+        Some(n) if n == want => (),
+        other => {
+            rep.mismatch("C10", "parameter_count", &id, json!({"expected": want, "reported": other}), case);
+        }
+    }
+    nets::randomize_floats(&mut net, &arch, rng, 0.6);
+    let data = crate::training::arch_dataset(&arch, 3, rng);
+    let xr: Vec<&Tensor> = data.inputs.iter().collect();
+    let yr: Vec<&Tensor> = data.targets.iter().collect();
+    match guarded(|| net.learn(&xr, &yr, None, batch, steps as i32, None)) {
+        Err(e) => rep.mismatch("C10", "training_panicked", &id, json!({"panic": e, "acc": acc, "block": case["block"]}), case),
+        Ok(_) => {
+            if let Some(d) = copies_equal(&net, period) {
+                rep.mismatch("C10", "copies_differ_after_training", &id, json!({"diff": d}), case);
+            }
+        }
+    }
+}
